@@ -1,6 +1,7 @@
 package c20
 
 import (
+	"github.com/smart-core-os/sc-golang/pkg/trait/vendingpb"
 	"fmt"
 	"sort"
 	"strings"
@@ -67,64 +68,132 @@ func sameList[T proto.Message](what string, got, want []T) error {
 	return nil
 }
 
+// noise surrounds a model's own options with a few plain resource options that change nothing (a clock, a source of
+// randomness, an empty option), in a drawn arrangement: a deployment configures those model-wide, and however many there
+// are the model-specific configuration must still be used. The list is built with append, as callers build it.
+func noise(t *rapid.T, opts ...resource.Option) []resource.Option {
+	harmless := func(i int) resource.Option {
+		switch i % 3 {
+		case 0:
+			return resource.WithClock(resource.WallClock())
+		case 1:
+			return resource.WithRNG(strings.NewReader(strings.Repeat("0123456789abcdef", 64)))
+		}
+		return resource.EmptyOption{}
+	}
+	n := rapid.IntRange(0, 8).Draw(t, "plainOptions")
+	front := rapid.IntRange(0, n).Draw(t, "plainOptionsFirst")
+	var out []resource.Option
+	for i := 0; i < front; i++ {
+		out = append(out, harmless(i))
+	}
+	for _, o := range opts {
+		out = append(out, o)
+	}
+	for i := front; i < n; i++ {
+		out = append(out, harmless(i))
+	}
+	if n > 0 {
+		lib.Ev.Class("model configured with its own options among plain resource options")
+	}
+	return out
+}
+
 // configCases: one model family each; build a model from drawn explicit configuration and compare what it reports.
 var configCases = map[string]func(t *rapid.T) error{
 	"initial value (single-value models)": func(t *rapid.T) error {
 		switch rapid.IntRange(0, 8).Draw(t, "model") {
 		case 0:
 			v := gen(t, "v", &traits.AirQuality{})
-			got, err := airqualitysensorpb.NewModel(airqualitysensorpb.WithInitialAirQuality(proto.Clone(v).(*traits.AirQuality))).GetAirQuality()
+			got, err := airqualitysensorpb.NewModel(noise(t, airqualitysensorpb.WithInitialAirQuality(proto.Clone(v).(*traits.AirQuality)))...).GetAirQuality()
 			if err != nil || !proto.Equal(got, v) {
 				return fmt.Errorf("airquality: configured %v, GetAirQuality = %v, %v", v, got, err)
 			}
 		case 1:
 			v := gen(t, "v", &traits.AirTemperature{})
-			got, err := airtemperaturepb.NewModel(airtemperaturepb.WithInitialAirTemperature(proto.Clone(v).(*traits.AirTemperature))).GetAirTemperature()
+			got, err := airtemperaturepb.NewModel(noise(t, airtemperaturepb.WithInitialAirTemperature(proto.Clone(v).(*traits.AirTemperature)))...).GetAirTemperature()
 			if err != nil || !proto.Equal(got, v) {
 				return fmt.Errorf("airtemperature: configured %v, GetAirTemperature = %v, %v", v, got, err)
 			}
 		case 2:
 			v := gen(t, "v", &traits.EnergyLevel{})
-			got, err := energystoragepb.NewModel(energystoragepb.WithInitialEnergyLevel(proto.Clone(v).(*traits.EnergyLevel))).GetEnergyLevel()
+			got, err := energystoragepb.NewModel(noise(t, energystoragepb.WithInitialEnergyLevel(proto.Clone(v).(*traits.EnergyLevel)))...).GetEnergyLevel()
 			if err != nil || !proto.Equal(got, v) {
 				return fmt.Errorf("energystorage: configured %v, GetEnergyLevel = %v, %v", v, got, err)
 			}
 		case 3:
 			v := gen(t, "v", &traits.EnterLeaveEvent{})
-			got, err := enterleavesensorpb.NewModel(enterleavesensorpb.WithInitialEnterLeaveEvent(proto.Clone(v).(*traits.EnterLeaveEvent))).GetEnterLeaveEvent()
+			got, err := enterleavesensorpb.NewModel(noise(t, enterleavesensorpb.WithInitialEnterLeaveEvent(proto.Clone(v).(*traits.EnterLeaveEvent)))...).GetEnterLeaveEvent()
 			if err != nil || !proto.Equal(got, v) {
 				return fmt.Errorf("enterleave: configured %v, GetEnterLeaveEvent = %v, %v", v, got, err)
 			}
 		case 4:
 			v := gen(t, "v", &traits.Occupancy{})
-			got, err := occupancysensorpb.NewModel(occupancysensorpb.WithInitialOccupancy(proto.Clone(v).(*traits.Occupancy))).GetOccupancy()
+			got, err := occupancysensorpb.NewModel(noise(t, occupancysensorpb.WithInitialOccupancy(proto.Clone(v).(*traits.Occupancy)))...).GetOccupancy()
 			if err != nil || !proto.Equal(got, v) {
 				return fmt.Errorf("occupancy: configured %v, GetOccupancy = %v, %v", v, got, err)
 			}
 		case 5:
 			v := gen(t, "v", &traits.OnOff{})
-			got, err := onoffpb.NewModel(onoffpb.WithInitialOnOff(proto.Clone(v).(*traits.OnOff))).GetOnOff()
+			got, err := onoffpb.NewModel(noise(t, onoffpb.WithInitialOnOff(proto.Clone(v).(*traits.OnOff)))...).GetOnOff()
 			if err != nil || !proto.Equal(got, v) {
 				return fmt.Errorf("onoff: configured %v, GetOnOff = %v, %v", v, got, err)
 			}
 		case 6:
 			v := gen(t, "v", &traits.Brightness{})
-			got, err := lightpb.NewModel(lightpb.WithInitialBrightness(proto.Clone(v).(*traits.Brightness))).GetBrightness()
+			got, err := lightpb.NewModel(noise(t, lightpb.WithInitialBrightness(proto.Clone(v).(*traits.Brightness)))...).GetBrightness()
 			if err != nil || !proto.Equal(got, v) {
 				return fmt.Errorf("light: configured %v, GetBrightness = %v, %v", v, got, err)
 			}
 		case 7:
 			v := gen(t, "v", &traits.ElectricDemand{})
-			if got := electricpb.NewModel(electricpb.WithInitialDemand(proto.Clone(v).(*traits.ElectricDemand))).Demand(); !proto.Equal(got, v) {
+			if got := electricpb.NewModel(noise(t, electricpb.WithInitialDemand(proto.Clone(v).(*traits.ElectricDemand)))...).Demand(); !proto.Equal(got, v) {
 				return fmt.Errorf("electric: configured demand %v, Demand() = %v", v, got)
 			}
 		case 8:
 			v := gen(t, "v", &traits.ElectricMode{})
-			if got := electricpb.NewModel(electricpb.WithInitialActiveMode(proto.Clone(v).(*traits.ElectricMode))).ActiveMode(); !proto.Equal(got, v) {
+			if got := electricpb.NewModel(noise(t, electricpb.WithInitialActiveMode(proto.Clone(v).(*traits.ElectricMode)))...).ActiveMode(); !proto.Equal(got, v) {
 				return fmt.Errorf("electric: configured active mode %v, ActiveMode() = %v", v, got)
 			}
 		}
 		return nil
+	},
+	"initial stock and consumables (vending)": func(t *rapid.T) error {
+		names := distinctIDs(t, "consumable", 4)
+		sorted := append([]string(nil), names...)
+		sort.Strings(sorted)
+		byName := map[string]*traits.Consumable{}
+		stockByName := map[string]*traits.Consumable_Stock{}
+		var cons []*traits.Consumable
+		var stocks []*traits.Consumable_Stock
+		for _, n := range names {
+			c := &traits.Consumable{Name: n, DisplayName: "the " + n}
+			st := &traits.Consumable_Stock{Consumable: n, Remaining: &traits.Consumable_Quantity{Amount: float32(rapid.IntRange(0, 50).Draw(t, "remaining")), Unit: traits.Consumable_LITER},
+				Used: &traits.Consumable_Quantity{Unit: traits.Consumable_LITER}}
+			byName[n], stockByName[n] = c, st
+			cons = append(cons, proto.Clone(c).(*traits.Consumable))
+			stocks = append(stocks, proto.Clone(st).(*traits.Consumable_Stock))
+		}
+		var opts []resource.Option
+		if rapid.Bool().Draw(t, "stockFirst") {
+			opts = append(opts, vendingpb.WithInitialStock(stocks...), vendingpb.WithInitialConsumable(cons...))
+		} else {
+			opts = append(opts, vendingpb.WithInitialConsumable(cons...), vendingpb.WithInitialStock(stocks...))
+		}
+		m := vendingpb.NewModel(noise(t, opts...)...)
+		var wantC []*traits.Consumable
+		var wantS []*traits.Consumable_Stock
+		for _, n := range sorted {
+			wantC = append(wantC, byName[n])
+			wantS = append(wantS, stockByName[n])
+			if got, ok := m.GetStock(n); !ok || !proto.Equal(got, stockByName[n]) {
+				return fmt.Errorf("vending stock %q: configured %v, GetStock = %v, %v", n, stockByName[n], got, ok)
+			}
+		}
+		if err := sameList("vending consumables", m.ListConsumables(), wantC); err != nil {
+			return err
+		}
+		return sameList("vending inventory", m.ListInventory(), wantS)
 	},
 	"initial records (parent, publication, booking, electric modes)": func(t *rapid.T) error {
 		ids := distinctIDs(t, "id", 5)
@@ -144,7 +213,7 @@ var configCases = map[string]func(t *rapid.T) error{
 				byID[id] = c
 				all = append(all, proto.Clone(c).(*traits.Child))
 			}
-			m := parentpb.NewModel(parentpb.WithInitialChildren(all[:split]...), parentpb.WithInitialChildren(all[split:]...))
+			m := parentpb.NewModel(noise(t, parentpb.WithInitialChildren(all[:split]...), parentpb.WithInitialChildren(all[split:]...))...)
 			var want []*traits.Child
 			for _, id := range sorted {
 				want = append(want, byID[id])
@@ -159,7 +228,7 @@ var configCases = map[string]func(t *rapid.T) error{
 				byID[id] = p
 				all = append(all, proto.Clone(p).(*traits.Publication))
 			}
-			m := publicationpb.NewModel(publicationpb.WithInitialPublication(all[:split]...), publicationpb.WithInitialPublication(all[split:]...))
+			m := publicationpb.NewModel(noise(t, publicationpb.WithInitialPublication(all[:split]...), publicationpb.WithInitialPublication(all[split:]...))...)
 			var want []*traits.Publication
 			for _, id := range sorted {
 				want = append(want, byID[id])
@@ -177,7 +246,7 @@ var configCases = map[string]func(t *rapid.T) error{
 				byID[id] = b
 				all = append(all, proto.Clone(b).(*traits.Booking))
 			}
-			m := bookingpb.NewModel(bookingpb.WithInitialBooking(all[:split]...), bookingpb.WithInitialBooking(all[split:]...))
+			m := bookingpb.NewModel(noise(t, bookingpb.WithInitialBooking(all[:split]...), bookingpb.WithInitialBooking(all[split:]...))...)
 			var want []*traits.Booking
 			for _, id := range sorted {
 				want = append(want, byID[id])
@@ -197,7 +266,7 @@ var configCases = map[string]func(t *rapid.T) error{
 				byID[id] = md
 				all = append(all, proto.Clone(md).(*traits.ElectricMode))
 			}
-			m := electricpb.NewModel(electricpb.WithInitialMode(all[:split]...), electricpb.WithInitialMode(all[split:]...))
+			m := electricpb.NewModel(noise(t, electricpb.WithInitialMode(all[:split]...), electricpb.WithInitialMode(all[split:]...))...)
 			var want []*traits.ElectricMode
 			for _, id := range sorted {
 				want = append(want, byID[id])
@@ -230,7 +299,7 @@ var configCases = map[string]func(t *rapid.T) error{
 			want = append(want, p)
 			opts = append(opts, lightpb.WithPreset(levels[n], proto.Clone(p).(*traits.LightPreset)))
 		}
-		m := lightpb.NewModel(opts...)
+		m := lightpb.NewModel(noise(t, opts...)...)
 		if err := sameList("light presets", m.ListPresets(), want); err != nil {
 			return err
 		}
@@ -282,7 +351,7 @@ var configCases = map[string]func(t *rapid.T) error{
 		}
 		initial := drawPositions("init")
 		opts = append(opts, openclosepb.WithInitialPositions(clone(initial, false)...))
-		m := openclosepb.NewModel(opts...)
+		m := openclosepb.NewModel(noise(t, opts...)...)
 		if err := sameList("open/close presets", m.ListPresets(), wantPresets); err != nil {
 			return err
 		}
